@@ -111,6 +111,30 @@ def check_parse(rep, name, cx, r, decl, c, stats, samples, is_view):
             rep.add("C14|cxx|parse|constraint-not-checked", f"{c.name}::Parse does not compare the parent's "
                     f"{', '.join(sorted(missing))} with the constraint value(s): a view of a parent that does not satisfy the "
                     f"constraints reports IsValid()", where)
+        # a child view has its own copy of everything its getters read: what its own Parse does not read from the
+        # payload it must take from the parent view, or the getter works on a default value
+        pfn = cx.parse_fn(c)
+        reads = {}
+        for mname, ms in c.methods.items():
+            if not mname.startswith("Get"):
+                continue
+            for m_ in ms:
+                b_ = cxxast.body_of(m_)
+                if b_ is None:
+                    continue
+                for x in cxxast.walk(b_):
+                    if x.get("kind") == "MemberExpr" and x.get("name") in c.fields and x.get("type") != "<bound member function type>":
+                        inner = (x.get("inner") or [{}])[0]
+                        if inner.get("kind") == "CXXThisExpr":
+                            reads.setdefault(x["name"], mname)
+        for f_, getter in sorted(reads.items()):
+            if f_ in ("valid_", "bytes_"):
+                continue
+            stats["inherited"] = stats.get("inherited", 0) + 1
+            if f_ not in ev.assigned:
+                rep.add("C14|cxx|parse|getter-reads-unset-member", f"{c.name}::{getter} reads {f_}, which {c.name}::Parse never "
+                        f"assigns (neither parsed from the payload nor copied from the parent view): the getter works on the "
+                        f"member's default value", where)
     if len(samples) < 3:
         samples.append({"description": name, "class": c.name, "items": [x["k"] for x in ev.items][:8],
                         "obligations": [f"{o.kind}: {'discharged' if o.ok else 'FAILED'}" for o in ev.obls[:4]]})
